@@ -3,6 +3,7 @@ package c12
 
 import (
 	"fmt"
+	"reflect"
 
 	"go.pennock.tech/tabular"
 	"go.pennock.tech/tabular/csv"
@@ -35,7 +36,48 @@ type Op struct {
 	N     int    `json:"n,omitempty"`
 	Reps  int    `json:"reps,omitempty"`
 	Col   int    `json:"col,omitempty"`
+	// V: the form of the value a "set" stores: 0 a fresh unique int; 1 a fresh pointer, 2 a fresh map, 3 a fresh
+	// slice inside a struct pointer - each time with the SAME contents as every other value of that form, so that
+	// only identity tells the most recent one from the earlier ones; 4 a boxed copy of the key itself.
+	V int `json:"v,omitempty"`
 }
+
+type box struct{ S []int }
+
+// value builds the value of form v; seq is unique per set.
+func value(v, seq int, key interface{}) interface{} {
+	switch v {
+	case 1:
+		return new(int)
+	case 2:
+		return map[string]int{"a": 1}
+	case 3:
+		return &box{S: []int{1, 2}}
+	case 4:
+		return [1]interface{}{key}
+	}
+	return seq
+}
+
+// same: is got the very value that was stored (identity for reference values).
+func same(got, want interface{}) bool {
+	if got == nil || want == nil {
+		return got == nil && want == nil
+	}
+	vg, vw := reflect.ValueOf(got), reflect.ValueOf(want)
+	if vg.Type() != vw.Type() {
+		return false
+	}
+	if vg.Kind() == reflect.Map {
+		return vg.Pointer() == vw.Pointer()
+	}
+	return got == want
+}
+
+// mut is a mutable item: what a cell shows changes only when the cell is updated.
+type mut struct{ s string }
+
+func (m *mut) String() string { return m.s }
 
 // Owner addresses a property owner; indices are taken modulo what exists.
 type Owner struct {
@@ -174,7 +216,7 @@ func (w *world) sweep(step int, what string) *ev.Violation {
 		for ki, k := range Keys {
 			got := po.GetProperty(k)
 			want := model[ki]
-			if got != want {
+			if !same(got, want) {
 				return ev.V("after step %d (%s): %s: GetProperty(%T %v) = %v, want %v", step, what, name, k, k, got, want)
 			}
 		}
@@ -233,7 +275,11 @@ func CheckCase(c Case) *ev.Violation {
 	items := func(n int) []interface{} {
 		out := make([]interface{}, n)
 		for i := range out {
-			out[i] = fmt.Sprintf("c%d", i)
+			if i%2 == 0 {
+				out[i] = &mut{fmt.Sprintf("m%d", i)}
+			} else {
+				out[i] = fmt.Sprintf("c%d", i)
+			}
 		}
 		return out
 	}
@@ -260,7 +306,7 @@ func CheckCase(c Case) *ev.Violation {
 				delete(r.model, ki)
 			} else {
 				w.seq++
-				val := w.seq
+				val := value(op.V, w.seq, Keys[ki])
 				if err := r.po.SetProperty(Keys[ki], val); err != nil {
 					return ev.V("step %d: SetProperty on %s failed: %v", step, r.name, err)
 				}
@@ -301,7 +347,17 @@ func CheckCase(c Case) *ev.Violation {
 			if !ok {
 				break
 			}
-			r.po.(*tabular.Cell).Update()
+			// the item behind the cell may have changed in the meantime (N: 0 unchanged, 1 other text, 2 no text)
+			cell := r.po.(*tabular.Cell)
+			if m, ok := cell.Item().(*mut); ok {
+				switch op.N % 3 {
+				case 1:
+					m.s += "+"
+				case 2:
+					m.s = ""
+				}
+			}
+			cell.Update()
 		case "reset":
 			r, ok := w.resolve(op.Owner)
 			if !ok || len(r.model) == 0 {
@@ -499,6 +555,8 @@ func Classify(c Case) (bool, interface{}, []string) {
 			add("owner-" + op.Owner.Kind)
 			if op.K == "setnil" {
 				add("set-nil")
+			} else if op.V >= 1 && op.V <= 3 {
+				add("value-told-apart-by-identity-only")
 			}
 		case "copycell", "addcopy", "nestcell":
 			copyOrHandle = true
@@ -508,6 +566,9 @@ func Classify(c Case) (bool, interface{}, []string) {
 			add("setmany")
 		case "update":
 			add("update")
+			if op.N%3 != 0 {
+				add("update-after-item-changed")
+			}
 		case "handle":
 			handleAt = cols
 			add("handle")
